@@ -28,7 +28,10 @@ def gen(rng, k):
           "M udp_new 71 2", "M udp_open 71 1", "M udp_send 71 0 167772161 7000 : 5 50", "M udp_wait 71 901",
           "HOST 1 50000000 0 0 167772166", "M rslv_new 1 2", "M resolve 1 host 1 80 902", "M resolve 1 lit 0 167772170 81 903",
           "M expires_at 60 40000000", "M async_wait 60 904"]
-    objs += [("udp", 70), ("udp", 71), ("rslv", 1), ("timer", 60)]
+    # a timer that is armed but never waited on (a "deadline" somebody forgot): destroying or cancelling it
+    # must take it out of the simulation's timer queue
+    L += ["M expires_at 61 %d" % r.choice([35000000, 250000000, 2000000000])]
+    objs += [("udp", 70), ("udp", 71), ("rslv", 1), ("timer", 60), ("timer", 61), ("timer", 61)]
     hid = 950
     tid = 200
     for _ in range(r.choice([1, 2, 3, 5])):
